@@ -67,7 +67,18 @@ func genC11(verifSeed int64, tier string, idx int) *core.Scenario {
 		n.ExternalReferences = append(n.ExternalReferences, &sbom.ExternalReference{Url: "https://e.example/x", Hashes: map[int32]string{1: "aa", 3: "bb"}})
 	}
 	sp.Docs = append(sp.Docs, docToB64(shared))
-	sp.Docs = append(sp.Docs, docToB64(serialisableDoc(r, "w", 4)))
+	wd := serialisableDoc(r, "w", 4)
+	switch r.Intn(6) { // documents a writer might want to "complete" before serializing
+	case 0:
+		wd.Metadata.Version = ""
+	case 1:
+		wd.Metadata.Date = nil
+	case 2:
+		wd.Metadata.Tools = nil
+	case 3:
+		wd.Metadata.Name, wd.Metadata.Authors = "", nil
+	}
+	sp.Docs = append(sp.Docs, docToB64(wd))
 	g2 := gen.New(r.Int63(), gen.Profile{MaxNodes: maxNodes, Tag: "s"}) // same tag: identifiers overlap with the shared list
 	sp.Docs = append(sp.Docs, docToB64(g2.Document("other-doc")))
 	ntasks := 1
